@@ -66,5 +66,29 @@ claim("C18",
   "NOT decided: that IsInSetSmart admits exactly the covered paths for all sets × paths up to depth 4 (value-level behaviour of a string algorithm; a bounded enumeration would be testing). Only the structural skeleton above is claimed.",
   "DESIGN.md §4 C18")
 
+claim("C16",
+  "const-arg rules on the container's process attributes and ptrace options, must-pass-through (every path of the deferred function reaches os.Exit), error-discipline on both socket loops, who-may-block over the serving goroutine with a kill-before-wait path rule, E1 result-test rule",
+  "Decides that the three death-propagation mechanisms exist, are unconditional and cover the init's blocking states: Pdeathsig=SIGKILL and default CLONE_NEWPID; exit-on-return registered before serving, transport errors closing 'done', every blocking operation of the serving goroutine observing 'done' or bounded by a preceding kill(-1); EXITKILL plus auto-attach options at the first stop of every tracee; a closed sync channel is fatal for a launching child.",
+  "Not decided: 'within bounded time'; coverage of every crash instant is argued from these mechanisms, not enumerated; caller-chosen clone flags without CLONE_NEWPID (assumption); the namespace runner without ptrace has no such mechanism and the statement claims none.",
+  "DESIGN.md §4 C16")
+
+claim("C17",
+  "cross-function lock pairing and dominance rules (ForkLock, environment mutex), who-may-write over all package-level variables, const-arg rule on wait targets and descriptor-creating flags",
+  "Decides the discipline that makes interleavings harmless: ForkLock held across the clone and released exactly once before blocking, read lock over descriptor reception, descriptors born close-on-exec, no run-time writes to package variables (one allow-listed), OS thread locked before the tracee starts, no wait on pid −1 in the runners, every exported environment method locking before it touches socket/deadline/channels and unlocked helpers reachable only under the lock.",
+  "Not decided: scheduler interleavings as such; descriptor-number reuse by the embedding program; fairness. ptracer.UseVMReadv is written without synchronisation (allow-listed, recorded as assumption).",
+  "DESIGN.md §4 C17")
+
+claim("C19",
+  "guarded-by rules on the ancillary records, dominance of the truncation test over every success return, paired-release on rejected messages, const-arg construction rules, ordering/typestate rules on the gob framing",
+  "Decides: rights and credentials are attached exactly when given and sent with the payload; no success return of RecvMsg bypasses the MSG_TRUNC|MSG_CTRUNC test; truncated, unparsable and undecodable messages have their descriptors closed (the closer visits every control message); SEQPACKET|CLOEXEC construction with SO_PASSCRED on the host end before the container starts; buffer reset before each encode, size test before the send, equal buffer sizes, one encode/decode per message. One known finding (encoder kept after an oversize rejection) is listed in known_findings.json.",
+  "Not decided: byte-level fidelity of gob and of the kernel, SEQPACKET ordering and wholeness, the kernel's per-message descriptor maximum.",
+  "DESIGN.md §4 C19")
+
+claim("C20",
+  "guarded-by and who-may-write rules on the ownership flag, provenance rule (ownership decisions derive from a mkdir error), table extraction of file names / scale factors vs the kernel's documented interface, constructor result rule",
+  "Decides: Destroy removes only created directories of non-existing handles with a non-recursive rmdir; ownership decided from mkdir's EEXIST (never Stat), Random only returns fresh groups; child paths nest under the parent; AddProc writes decimal pids one per write to the group's own cgroup.procs for every controller; the v1/v2 file and unit table (including usage_usec×1000 and the cpu.max format); failed creations clean up only what they created; constructors return the handle they built (this rule found and led to the repair of OpenExisting on v1).",
+  "Not decided: kernel accounting; behaviour on malformed statistics beyond errors being returned; concurrency beyond creation atomicity.",
+  "DESIGN.md §4 C20")
+
 for pid in [p for p in ["C%02d"%i for i in range(1,21)] if p not in CLAIMS]:
     na(pid, "check under construction in this session (design in DESIGN.md section 4); not yet claimed")
